@@ -1,0 +1,104 @@
+//! Verification-only instrumentation, compiled only with `--cfg apollo_rs_verif`.
+//!
+//! [`TracedAtomicU64`] wraps the process-global file ID counter: every atomic operation goes
+//! through an optional hook installed by the verification harness, which can schedule the calling
+//! threads (forcing a chosen interleaving) and record `(operation, argument, result)`.
+
+use std::sync::atomic::AtomicU64;
+use std::sync::atomic::Ordering;
+use std::sync::RwLock;
+
+/// `hook(operation, argument, perform)`: must call `perform` exactly once and return its result.
+pub type Hook = dyn Fn(&'static str, u64, u64, &dyn Fn() -> u64) -> u64 + Send + Sync;
+
+static HOOK: RwLock<Option<Box<Hook>>> = RwLock::new(None);
+
+/// Install (or remove) the hook through which every operation on the counter goes.
+pub fn set_hook(hook: Option<Box<Hook>>) {
+    *HOOK.write().unwrap() = hook;
+}
+
+fn through_hook(op: &'static str, a: u64, b: u64, perform: &dyn Fn() -> u64) -> u64 {
+    let guard = HOOK.read().unwrap();
+    match guard.as_ref() {
+        Some(hook) => hook(op, a, b, perform),
+        None => perform(),
+    }
+}
+
+pub struct TracedAtomicU64(AtomicU64);
+
+impl TracedAtomicU64 {
+    pub const fn new(value: u64) -> Self {
+        Self(AtomicU64::new(value))
+    }
+
+    pub fn set_untraced(&self, value: u64) {
+        self.0.store(value, Ordering::SeqCst)
+    }
+
+    pub fn load(&self, order: Ordering) -> u64 {
+        through_hook("load", 0, 0, &|| self.0.load(order))
+    }
+
+    pub fn store(&self, value: u64, order: Ordering) {
+        through_hook("store", value, 0, &|| {
+            self.0.store(value, order);
+            0
+        });
+    }
+
+    pub fn swap(&self, value: u64, order: Ordering) -> u64 {
+        through_hook("swap", value, 0, &|| self.0.swap(value, order))
+    }
+
+    pub fn fetch_add(&self, value: u64, order: Ordering) -> u64 {
+        through_hook("fetch_add", value, 0, &|| self.0.fetch_add(value, order))
+    }
+
+    pub fn compare_exchange(
+        &self,
+        current: u64,
+        new: u64,
+        success: Ordering,
+        failure: Ordering,
+    ) -> Result<u64, u64> {
+        // the result is encoded for the hook as: previous value, with success = (previous == current)
+        let previous = through_hook("compare_exchange", current, new, &|| {
+            match self.0.compare_exchange(current, new, success, failure) {
+                Ok(v) | Err(v) => v,
+            }
+        });
+        if previous == current {
+            Ok(previous)
+        } else {
+            Err(previous)
+        }
+    }
+
+    pub fn compare_exchange_weak(
+        &self,
+        current: u64,
+        new: u64,
+        success: Ordering,
+        failure: Ordering,
+    ) -> Result<u64, u64> {
+        self.compare_exchange(current, new, success, failure)
+    }
+
+    pub fn fetch_update(
+        &self,
+        set_order: Ordering,
+        fetch_order: Ordering,
+        mut f: impl FnMut(u64) -> Option<u64>,
+    ) -> Result<u64, u64> {
+        let mut previous = self.load(fetch_order);
+        while let Some(next) = f(previous) {
+            match self.compare_exchange(previous, next, set_order, fetch_order) {
+                Ok(value) => return Ok(value),
+                Err(value) => previous = value,
+            }
+        }
+        Err(previous)
+    }
+}
